@@ -40,6 +40,8 @@ def cmd_try(args):
         shutil.copy(os.path.join(wd, 'gen.rs'), keep)
         for t in tool:
             print('TOOL', t)
+        for f, why in sorted(G.anchor_skipped.items()):
+            print('UNDECIDED left out:', f, '|', why)
         for l in res['raw_err'][:40]:
             print('RAW', l)
         for oid, ds in failed.items():
